@@ -4,6 +4,7 @@ import (
 	"encoding/json"
 	"fmt"
 	"math"
+	"sort"
 	"strconv"
 	"strings"
 
@@ -202,6 +203,56 @@ func genC02(tier, out string, sum *Summary) {
 			sum.direct("spec-example", c.expr, vr, "expected "+toJSON(c.want)+", got "+describe(o))
 		}
 	}
+	// a type fault anywhere wins over a value fault anywhere else
+	for _, e := range []string{"pad_left('a', `-1`, `5`)", "pad_left(`1`, `-1`)", "pad_right('a', `1.5`, `1`)", "pad_right(`1`, `2`, 'xy')", "split('a', `1`, `-1`)", "split(`1`, 'a', `-1`)", "split(`1`, 'a', `0.5`)",
+		"replace('a', 'a', `1`, `-1`)", "replace('a', `1`, 'b', `1.5`)", "replace(`1`, 'a', 'b', `-1`)", "find_first('a', 'a', `1.5`, 'x')", "find_last('a', 'a', `1.5`, 'x')", "find_first('a', 'a', `1.5`, `null`)", "find_last('a', 'a', `0.5`, `[]`)",
+		"find_first('a', `1`, `1.5`)", "find_last(`1`, 'a', `0.5`, `1`)", "find_first(`1`, 'a', `0`, `1.5`)", "find_last('a', `{}`, `0`, `1.5`)", "from_items([['a'], `1`])", "from_items([[`1`, `2`], 'x'])", "from_items([['a', `1`, `2`], `null`])"} {
+		o := run(e, vr, false)
+		sum.count("mixed-faults")
+		if !(o.Kind == "err" && len(o.Cats) == 1 && o.Cats[0] == "CInvalidType") {
+			sum.direct("spec-example", e, vr, "an argument outside the signature must be an invalid-type error even when another argument is out of range, got "+describe(o))
+		}
+	}
+	// counts and offsets around the number of code points and the number of bytes, against a rune-level reference
+	for _, subj := range []string{"", "a", "éa", "aébcab", "日本語", "ab😀", "αβγ", "héllo", "a,b,,c", "é"} {
+		rs := []rune(subj)
+		l, nb := int64(len(rs)), int64(len(subj))
+		for _, sep := range []string{"", "a", "b", ",", "é", "😀", "ll"} {
+			for _, k := range []int64{0, 1, 2, l - 2, l - 1, l, l + 1, nb - 1, nb, nb + 1, 2 * nb, 99} {
+				if k < 0 {
+					continue
+				}
+				d := map[string]any{"s": subj, "p": sep}
+				e := "split(s, p, `" + strconv.FormatInt(k, 10) + "`)"
+				o := run(e, d, false)
+				sum.count("count-boundaries")
+				if want := refSplit(subj, sep, k); !(o.Kind == "val" && sameValue(o.Value, want, false)) {
+					sum.direct("spec-example", e, d, "expected "+toJSON(want)+", got "+describe(o))
+				}
+				if sep != "" {
+					e2 := "replace(s, p, '-', `" + strconv.FormatInt(k, 10) + "`)"
+					o2 := run(e2, d, false)
+					if want := strings.Replace(subj, sep, "-", int(k)); !(o2.Kind == "val" && o2.Value == want) {
+						sum.direct("spec-example", e2, d, "expected "+toJSON(want)+", got "+describe(o2))
+					}
+				}
+			}
+			d := map[string]any{"s": subj, "p": sep}
+			if o := run("split(s, p)", d, false); !(o.Kind == "val" && sameValue(o.Value, refSplit(subj, sep, 1<<40), false)) {
+				sum.direct("spec-example", "split(s, p)", d, "expected "+toJSON(refSplit(subj, sep, 1<<40))+", got "+describe(o))
+			}
+		}
+	}
+	// aggregates round once, half to even
+	for _, c := range []ex{{"sum(`[20000000000000000000000000000000000, 5]`)", json.Number("2e34")}, {"sum(`[20000000000000000000000000000000000, 15]`)", json.Number("20000000000000000000000000000000020")}, {"sum(`[2e34, 2, 3]`)", json.Number("2e34")},
+		{"sum(`[20000000000000000000000000000000000, 5.000000001]`)", json.Number("20000000000000000000000000000000010")}, {"avg(`[4e34, 10]`)", json.Number("2e34")}, {"sum(`[9999999999999999999999999999999999, 0.5]`)", json.Number("1e34")}, {"avg(`[1, 1, 0.9999999999999999999999999999999999]`)", json.Number("1")},
+		{"sum(`[1e36, 1, -1e36]`)", json.Number("1")}, {"avg(`[1e36, 3, -1e36]`)", json.Number("1")}, {"sum(`[0.1, 0.2]`)", json.Number("0.3")}} {
+		o := run(c.expr, vr, false)
+		sum.count("aggregate-rounding")
+		if !(o.Kind == "val" && sameValue(o.Value, c.want, false)) {
+			sum.direct("spec-example", c.expr, vr, "expected "+toJSON(c.want)+", got "+describe(o))
+		}
+	}
 	sh.Flush()
 	sum.Cases = id
 	sum.Shards = sh.files
@@ -318,8 +369,13 @@ func rekind(v any, choose func(n json.Number) any) any {
 		return c
 	case map[string]any:
 		c := map[string]any{}
-		for k, x := range v {
-			c[k] = rekind(x, choose)
+		keys := make([]string, 0, len(v))
+		for k := range v {
+			keys = append(keys, k)
+		}
+		sort.Strings(keys) // choose draws from the PRNG: visit the members in a fixed order
+		for _, k := range keys {
+			c[k] = rekind(v[k], choose)
 		}
 		return c
 	}
@@ -476,4 +532,37 @@ func allNumbersFloat(v any) bool {
 		return true
 	}
 	return false
+}
+
+// split at the level of code points: at most k cuts
+func refSplit(s, sep string, k int64) any {
+	if k == 0 {
+		return []any{s}
+	}
+	if s == "" {
+		return []any{}
+	}
+	var parts []string
+	if sep == "" {
+		rs := []rune(s)
+		cut := k
+		if cut > int64(len(rs))-1 {
+			cut = int64(len(rs)) - 1
+		}
+		for i := int64(0); i < cut; i++ {
+			parts = append(parts, string(rs[i]))
+		}
+		parts = append(parts, string(rs[cut:]))
+	} else {
+		n := int(k) + 1
+		if k > 1<<30 {
+			n = -1
+		}
+		parts = strings.SplitN(s, sep, n)
+	}
+	out := make([]any, len(parts))
+	for i, p := range parts {
+		out[i] = p
+	}
+	return out
 }
